@@ -787,6 +787,13 @@ const Port *Ports::apropos(const char *path) const
                 : &port;
 
     //This is the lowest level, now find the best port
+    //A port with exactly this name wins over one which only starts with it
+    //("rf" shall not find "rfa::f" if there also is "rf::f")
+    const size_t path_len = strlen(path);
+    for(const Port &port: ports)
+        if(path_len && !strncmp(port.name, path, path_len) &&
+           (port.name[path_len] == ':' || port.name[path_len] == '\0'))
+            return &port;
     for(const Port &port: ports)
         if(*path && (strstr(port.name, path)==port.name ||
                     rtosc_match_path(port.name, path, NULL)))
